@@ -152,6 +152,97 @@ pub fn run(tier: Tier) -> i32 {
         ctx.set_extra("longest_symbol_in_adversarial_stream_input_bytes", json!(longest));
         ctx.scope_done(&format!("adversarial-long-symbol-tails/{}-graphs", jobs.len()), jobs.len() as u64, t1, &format!("{} states, {} edges; longest symbol {} input bytes (decoder look-ahead limit 20)", a2.0, a2.1, longest));
     }
+    // ---------------------------------------------------------------- long inputs, a few ways of cutting them (linear, not a graph):
+    // streams far longer than the graphs can take - offsets beyond 2^16 (2^24), windows that wrap many times, kilobytes of
+    // further data after a sized payload inside the same write, dictionaries that are not a multiple of 16
+    {
+        use crate::cases::{run_case, Case, Fmt, Hex, Rd, SOp, Sk};
+        use crate::refmodel::enc::{self, Sym};
+        let t2 = Instant::now();
+        let mut inputs: Vec<(String, Vec<u8>, Opts)> = Vec::new();
+        let nlit = tier.pick(70_000usize, 400_000usize);
+        let lit: Vec<Sym> = (0..nlit as u32).map(|i| Sym::L((i.wrapping_mul(2654435761) >> 13) as u8)).collect();
+        let e = enc::encode(3, 0, 2, 1 << 16, &lit);
+        inputs.push((format!("{} incompressible literals, size in header", nlit), enc::lzma_file(3, 0, 2, 1 << 16, Some(nlit as u64), &e.payload), Opts::default()));
+        let mut cp: Vec<Sym> = (0..500u32).map(|i| Sym::L((i * 7 + i / 3) as u8)).collect();
+        let mut produced = 500usize;
+        let total = tier.pick(1_200_000usize, 20_000_000usize);
+        let mut k = 0u32;
+        while produced < total {
+            if k % 11 == 10 {
+                cp.push(Sym::L((k * 13) as u8));
+                produced += 1;
+            } else {
+                let l = 273 - (k % 7);
+                cp.push(Sym::M(1 + (k * 37) % 4000u32.min(produced as u32 - 1), l));
+                produced += l as usize;
+            }
+            k += 1;
+        }
+        for dict in [4096u32, 1 << 20] {
+            let mut q = cp.clone();
+            q.push(Sym::E);
+            let e = enc::encode(3, 0, 2, dict as u64, &q);
+            if e.bad.is_none() {
+                inputs.push((format!("{} bytes of copies and literals, dictionary {}, end marker", e.expect.len(), dict), enc::lzma_file(3, 0, 2, dict, None, &e.payload), Opts::default()));
+            }
+        }
+        // a sized payload followed by kilobytes of other data (zeros, 0xFF, a second payload)
+        {
+            let prog: Vec<Sym> = (0..3000u32).map(|i| Sym::L((i.wrapping_mul(40503) >> 7) as u8)).collect();
+            let e = enc::encode(3, 0, 2, 4096, &prog);
+            let file = enc::lzma_file(3, 0, 2, 4096, Some(3000), &e.payload);
+            for (tn, tr) in [("4000 zero bytes", vec![0u8; 4000]), ("4000 bytes 0xFF", vec![0xFF; 4000]), ("a second copy of the payload", e.payload.clone())] {
+                let mut x = file.clone();
+                x.extend_from_slice(&tr);
+                inputs.push((format!("3000-byte payload with its size in the header, followed by {}", tn), x, Opts::default()));
+            }
+        }
+        // dictionaries that are not a multiple of 16: a copy just above the dictionary size after the window has wrapped
+        for dict in [4097u32, 4100, 5000] {
+            for over in [1u32, 3, 15] {
+                let mut prog: Vec<Sym> = (0..300u32).map(|i| Sym::L((i * 11 + 5) as u8)).collect();
+                for k in 0..20u32 {
+                    prog.push(Sym::M(1 + (k * 41) % 290, 260));
+                }
+                prog.push(Sym::M(dict + over, 5));
+                prog.push(Sym::L(1));
+                let e = enc::encode(3, 0, 2, 1 << 20, &prog);
+                if e.bad.is_none() {
+                    inputs.push((format!("copy at distance dictionary+{} after {} bytes, dictionary {}", over, e.expect.len() - 6, dict), enc::lzma_file(3, 0, 2, dict, Some(e.expect.len() as u64), &e.payload), Opts::default()));
+                }
+            }
+        }
+        let mut jobs: Vec<(usize, usize)> = Vec::new();
+        for (ii, (_, x, _)) in inputs.iter().enumerate() {
+            let n = x.len();
+            for piece in [n, 1, 7, 1279, 1280, 1281, 4096, 65535, 65536, 65537] {
+                if piece == 1 && n > 120_000 {
+                    continue;
+                }
+                if piece <= n {
+                    jobs.push((ii, piece));
+                }
+            }
+        }
+        par_for(jobs.len() as u64, |i| {
+            let (ii, piece) = jobs[i as usize];
+            let (label, x, opts) = &inputs[ii];
+            let one = run_case(&Case::Dec { fmt: Fmt::Lzma, opts: *opts, input: Hex(x.clone()), rd: Rd::default(), sk: Sk::default() });
+            let mut ops: Vec<SOp> = x.chunks(piece).map(|c| SOp::WriteAll(Hex(c.to_vec()))).collect();
+            ops.push(SOp::Finish);
+            let case = Case::Stream { opts: *opts, sk: Sk::default(), ops };
+            let o = run_case(&case);
+            ctx.eval(1);
+            ctx.nontriv(1);
+            let s_ok = o.ops.iter().all(|r| r.v.is_ok());
+            let same = s_ok == one.v.is_ok() && (!s_ok || o.out == one.out) && !o.ops.iter().any(|r| r.v.is_panic());
+            if !same {
+                ctx.violation(&case, &format!("{}: written in pieces of {} bytes then finish: same verdict as the one-shot decoder ({}) and, on success, the same {} bytes", label, piece, one.v.class(), one.out.0.len()), &o, None);
+            }
+        });
+        ctx.scope_done("long-inputs", jobs.len() as u64, t2, &format!("{} inputs x up to 10 piece sizes", inputs.len()));
+    }
     let a = agg.lock().unwrap();
     ctx.set_extra("merges", json!(a.2));
     ctx.set_extra("merge_audits", json!(a.3));
